@@ -21,6 +21,10 @@ LeafSpecs == {SAttr("a", TNum, FALSE), SAttr("a", TNum, TRUE), SAttr("a", TStr, 
               BoolAttr, SLit(1), SLabel(0), STuple(<<SLabel(0), SLabel(1)>>),
               SBlockAttrs("p", TStr, FALSE), SBlockAttrs("p", TDyn, FALSE), SBlockAttrs("p", TNum, TRUE)}
 
+\* a second block type next to the wrapped spec's own, so that schemas list several block types
+\* and bodies interleave them (block sequence across types, C03)
+RBlocks == SBlockList("r", 0, 0, SLit(1))
+
 LitFor(t) == IF t = TNum THEN {SLit(1)} ELSE IF t = TStr THEN {SLit(2)} ELSE {}
 
 WrapSpec(x) ==
@@ -28,6 +32,7 @@ WrapSpec(x) ==
      SBlockList("p", 0, 0, x), SBlockList("p", 1, 1, x), SBlockTuple("p", 0, 0, x), SBlockSet("p", 0, 2, x),
      SBlockMap("q", 1, x), SBlockMap("q", 2, x), SBlockObject("q", 1, x), SBlockObject("q", 2, x),
      SObject(<<"f", "g">>, <<x, BoolAttr>>), SObject(<<"f">>, <<x>>), STuple(<<x, BoolAttr>>),
+     SObject(<<"f", "g">>, <<x, RBlocks>>), STuple(<<RBlocks, x>>),
      STransform(x), SValidate(x), SRefine(x)}
     \cup {SDefault(x, d) : d \in LitFor(ImpliedType(x))}
 
